@@ -31,12 +31,17 @@ def tasks(tier, seed):
     return gen.spread(ts, hs)
 
 
-def events(src, n, rng):
+def events(src, n, rng, words=None):
     from gambatools.tm_algorithms import tm_simulate_word, tm_accepts_word
     T = tmsrc.build(src)
     A = ab.tm(T)
-    words = list(U.words_upto(sorted(T.Sigma), n))
-    for w in (words if len(words) <= 4 else rng.sample(words, 4)):
+    if words is None:
+        words = list(U.words_upto(sorted(T.Sigma), n))
+        words = words if len(words) <= 4 else rng.sample(words, 4)
+    words = list(words)
+    if src.get("long") and T.Sigma:
+        words.append("".join(rng.choice(sorted(T.Sigma)) for _ in range(src["long"])))      # a long tape
+    for w in words:
         vs = [None] * len(BUDGETS)
         bad = "none"
         # the budgets are asked in a random order on the same machine object (a verdict must not depend on
@@ -55,7 +60,7 @@ def events(src, n, rng):
             bad = exc
         yield {"op": "tm_run", "tm": A, "w": ab.word(w), "k": k, "budgets": BUDGETS, "verdicts": vs,
                "seq": [[ab.enc(q), [ab.enc(x) for x in tape], head] for (q, tape, head) in (seq or [])],
-               "exc": bad, "src": dict(src, n=n)}
+               "exc": bad, "src": dict(src, n=n, w=w)}
 
 
 def drive(task):
@@ -65,17 +70,23 @@ def drive(task):
             yield from events({"kind": "tm_code", "nwork": task["nwork"], "gamma": task["gamma"], "code": code,
                                "sigma": task.get("sigma", "a")}, task["n"], rng)
         if task["lo"] == 0 and task["nwork"] == 1:
+            for src, ws in tmsrc.SPECIAL:
+                yield from events(src, 0, rng, words=ws)
             for q0 in ("qA", "qR"):
                 for code in (0, 5, 77):
                     yield from events({"kind": "tm_halting_start", "code": code, "q0": q0}, 1, rng)
     else:
         for i in range(task["count"]):
-            yield from events({"kind": "tm_rnd", "seed": task["seed"] * 100000 + i}, task["n"], rng)
+            src = {"kind": "tm_rnd01" if i % 4 == 3 else "tm_rnd", "seed": task["seed"] * 100000 + i}
+            if i % 5 == 0:
+                src["long"] = 10 + i % 4
+            yield from events(src, task["n"], rng)
 
 
 def redrive(src):
     n = src.pop("n", 2)
-    yield from events(src, n, random.Random(0))
+    w = src.pop("w", None)
+    yield from events(src, n, random.Random(0), words=None if w is None else [w])
 
 
 MODELS = {"quick": [("TmRun", "TmRun_q.cfg", "all 169 one-working-state TMs over {a,_} x words <= 2 x budget 6")],
@@ -83,7 +94,9 @@ MODELS = {"quick": [("TmRun", "TmRun_q.cfg", "all 169 one-working-state TMs over
                        ("TmRun", "TmRun_t.cfg", "all 6859 one-working-state TMs over {a,b,_} x words <= 2")]}
 RULE = ("all 169 TMs with one working state over tape alphabet {a,_} (+ the same started in a halting state), every "
         "97th (7th) of the 83521 two-working-state TMs, random TMs with 1-3 working states, 1-2 input symbols, extra "
-        "tape symbols, three blank symbols, partial transition functions; per (TM, word): the verdict under budgets "
+        "tape symbols, three blank symbols, partial transition functions (every fourth over {0,1} with states named q, q1, "
+        "q11, q10, q0; every fifth also on a word of length 10-13), two hand-written machines whose runs pass through "
+        "look-alike configurations; per (TM, word): the verdict under budgets "
         "0,1,2,3,4,6,8,1000 and the recorded configuration sequence for one budget; non-trivial = the run takes >= 2 "
         "steps; distinct = distinct (TM, word, budget)")
 
